@@ -39,10 +39,13 @@ class H(S.Hooks):
         self.reasons = set()
 
     def before(self, live, ops, k, op, stats):
+        if getattr(self, "broken", False):
+            self.desc = None
+            return
         self.desc = W.describe(live.m) if op[0] not in ("eval", "evalall") else None
 
     def after(self, live, ops, k, op, result, out, stats):
-        if op[0] in ("eval", "evalall"):
+        if op[0] in ("eval", "evalall") or getattr(self, "broken", False):
             return
         hist = S.hist_json(ops, k)
         if result.startswith("err"):
@@ -50,7 +53,15 @@ class H(S.Hooks):
             self.reasons.add(op[0] + result)
             if len(self.reasons) >= 2:
                 self.nontrivial = True
-            after = W.describe(live.m)
+            try:
+                after = W.describe(live.m)
+            except Exception as e:   # noqa
+                # the refused edit left the model in a state that cannot even be described (e.g. a deleted
+                # space still listed among the bases of a live one)
+                out.fail("%s raised (%s) and left the model in a state that cannot be described: %s: %s" % (
+                    op[0], result, type(e).__name__, e), hist)
+                self.broken = True
+                return
             if after != self.desc:
                 # an operation that trips over a reference to a deleted object half-way is the
                 # recorded dangling-reference finding (C13-deleted-object-in-formula-globals)
